@@ -55,6 +55,32 @@ theorem canSlew_mono_time (rate now now' last delta : Rat) (hr : 0 ≤ rate) (ht
 /-- a target further than the budget is not reachable: rate 0.05 rad/s for 60 s covers 3 rad, not 3.1 -/
 example : Geometry.canSlew (1 / 20) 120 60 3 = true ∧ Geometry.canSlew (1 / 20) 120 60 (31 / 10) = false := by decide +kernel
 
+/-- `calculateSunVizFraction` on the three angles (`a` Sun's, `b` Earth's apparent radius, `c` their separation) and the two distances it
+compares: which value it returns is decided by the model's `sunBranch`; 1 on the sunward side, 0 in full occultation, 1 without overlap -/
+theorem sunVizFraction_branch (a b c ds dss : Rat) (sq ac : Rat → Rat) :
+    (sunBranch a b c ds dss = 0 → Geometry.sunVizFraction a b c ds dss sq ac = 1) ∧
+    (sunBranch a b c ds dss = 1 → Geometry.sunVizFraction a b c ds dss sq ac = 0) ∧
+    (sunBranch a b c ds dss = 3 → Geometry.sunVizFraction a b c ds dss sq ac = 1) := by
+  unfold sunBranch Geometry.sunVizFraction
+  have h : ∀ x : Rat, pyAbs x = RV.Angles.absQ x := fun _ => rfl
+  simp only [h]
+  by_cases h1 : ds ≥ dss <;> by_cases h2 : c < RV.Angles.absQ (b - a) <;> by_cases h3 : c < RV.Angles.absQ (a + b) <;> simp [h1, h2, h3]
+
+/-- deep in the umbra (the Sun further than the satellite-Sun distance is not the case, and the separation is below the difference of the
+apparent radii) the fraction is exactly 0 - whatever `sqrt` and `arccos` are -/
+theorem sunVizFraction_umbra (a b c ds dss : Rat) (sq ac : Rat → Rat) (h : ds < dss) (hc : c < RV.Angles.absQ (b - a)) :
+    Geometry.sunVizFraction a b c ds dss sq ac = 0 := by
+  have hb : sunBranch a b c ds dss = 1 := by simp [sunBranch, not_le.mpr h, hc]
+  exact (sunVizFraction_branch a b c ds dss sq ac).2.1 hb
+
+theorem sunVizFraction_sunward (a b c ds dss : Rat) (sq ac : Rat → Rat) (h : dss ≤ ds) :
+    Geometry.sunVizFraction a b c ds dss sq ac = 1 := by
+  have hb : sunBranch a b c ds dss = 0 := by simp [sunBranch, h]
+  exact (sunVizFraction_branch a b c ds dss sq ac).1 hb
+
+/-- on the Earth-Sun line behind the Earth the separation is 0: full occultation as soon as the Earth looks bigger than the Sun -/
+example : Geometry.sunVizFraction (1 / 200) (1 / 2) 0 150000000 150007000 id id = 0 := by decide +kernel
+
 /-- non-vacuity: a satellite straight above a site is visible from it; the antipodal pair is not -/
 example : Geometry.lineOfSight (6378 * 7000) (6378 * 6378) (7000 * 7000) (6378 * 6378) = true ∧
     Geometry.lineOfSight (-(7000 * 7000)) (7000 * 7000) (7000 * 7000) (6378 * 6378) = false := by decide +kernel
